@@ -442,6 +442,9 @@ def relevant_locals(fn, obj_names, attrs):
                 return True
             if isinstance(n, ast.Name) and n.id in tracked:
                 return True
+            # the result of a helper that is handed the tracked object (`saved = self._enter_scope(ast_ctx, ..)`) may carry its attributes
+            if isinstance(n, ast.Call) and any(isinstance(a, ast.Name) and a.id in obj_names - {"self", "cls"} for a in n.args):
+                return True
         return False
 
     changed = True
